@@ -276,10 +276,20 @@ def _one_shot_at(prog, f, c, inner, ai, p, inner_inc):
 
 
 def hmac(rep, prog, tag):
-    fin = [f for f in prog.fns if f.path.endswith("crypto_auth::crypto_auth_hmacsha512256_final")]
-    ini = [f for f in prog.fns if f.path.endswith("crypto_auth::crypto_auth_hmacsha512256_init")]
+    # discovered from the public API: the function reachable from crypto_auth_final / crypto_auth_init that
+    # drives two SHA-512 contexts
+    def find_under(pub, pred):
+        roots = prog.by_path.get(pub, [])
+        for k in prog.reach_fns(roots):
+            g = prog.by_key[k]
+            if pred(g):
+                return [g]
+        return []
+    sha_calls = lambda g, nm: [c for c in g.calls() if c.is_local and c.rpath == "sha512::Sha512::" + nm]
+    fin = find_under("classic::crypto_auth::crypto_auth_final", lambda g: len(sha_calls(g, "finalize_into_bytes")) + len(sha_calls(g, "finalize")) >= 2)
+    ini = find_under("classic::crypto_auth::crypto_auth_init", lambda g: len(sha_calls(g, "update")) >= 2 and len(sha_calls(g, "new")) >= 2)
     if not fin or not ini:
-        rep.violation("ANCHOR", "HMAC init/final" + tag, "private HMAC helpers not found (looked up by the module's function names)")
+        rep.violation("ANCHOR", "HMAC init/final" + tag, "no function below crypto_auth_init/crypto_auth_final drives two SHA-512 contexts")
         return
     f = fin[0]
     seq = []
